@@ -14,6 +14,10 @@ def adt_by_suffix(f, suffix):
     for p, a in f.adts.items():
         if p.endswith("::" + suffix) or p == suffix:
             return a
+    # the type's own name, whatever module it was moved to
+    for p, a in f.adts.items():
+        if p.split("::")[-1] == suffix.split("::")[-1]:
+            return a
     return None
 
 
